@@ -2,7 +2,7 @@ CHECK = {
     "pkg": ".", "tags": "e2e_testing", "hide": ["interface_emit_test.go"],
     "files": ["netsim/ns_core_test.go", "netsim/ns_world_test.go", "netsim/ns_history_test.go", "netsim/c39_test.go"],
     "run": "^TestC15", "env": {"GOMAXPROCS": "1", "GODEBUG": "asyncpreemptoff=1"},
-    "quick": {"scale": 1, "shards": 1, "timeout": 900},
+    "quick": {"scale": 1, "shards": 4, "timeout": 900},
     "thorough": {"scale": 3, "shards": 14, "timeout": 2400},
     "engine": "E-netsim",
     "technique": "rapid-generated relay histories in a synctest bubble with the relay's own keys used by the adversary to rewrite, swap and replay inner packets; wire-plaintext scan and exact tun-delivery accounting",
